@@ -2407,3 +2407,154 @@ Proof.
     + apply Hx. tauto.
     + apply IH. tauto.
 Qed.
+
+(* ------------------------------------------------------------------------------------------ *)
+(* Scaling the square root by a constant: Length scales, Centroid does not change              *)
+(* (what lets the correspondence driver run the lineal formulas with 2^80 * sqrt)              *)
+(* ------------------------------------------------------------------------------------------ *)
+Section SqScale.
+  Variable sq : Q -> Q.
+  Variable k : Q.
+  Hypothesis k_nz : ~ k == 0.
+  Definition sqk (q : Q) : Q := k * sq q.
+
+  Lemma length_xy_sqk : forall L, length_xy sqk L == k * length_xy sq L.
+  Proof.
+    intros L. rewrite !length_xy_psum. destruct L as [|a r]; cbn [psum]; [ring|].
+    rewrite <- pairsum_scale. apply pairsum_ext. intros p q. unfold e_len, xy_len, sqk. reflexivity.
+  Qed.
+
+  Lemma sumcl_xy_sqk : forall L,
+    fst (fst (sumcl_xy sqk L)) == k * fst (fst (sumcl_xy sq L)) /\
+    snd (fst (sumcl_xy sqk L)) == k * snd (fst (sumcl_xy sq L)) /\
+    snd (sumcl_xy sqk L) == k * snd (sumcl_xy sq L).
+  Proof.
+    intros L. destruct (sumcl_xy_psum sqk L) as [H1 [H2 H3]], (sumcl_xy_psum sq L) as [G1 [G2 G3]].
+    rewrite H1, H2, H3, G1, G2, G3. destruct L as [|a r]; cbn [psum]; [repeat split; ring|].
+    rewrite <- !pairsum_scale.
+    repeat split; apply pairsum_ext; intros p q; unfold e_sx, e_sy, e_sl, xy_len, sqk;
+      destruct (xy_eqb p q); ring.
+  Qed.
+
+  Lemma Qeq_bool_scale : forall n, Qeq_bool (k * n) 0 = Qeq_bool n 0.
+  Proof.
+    intros n. destruct (Qeq_bool (k * n) 0) eqn:E1, (Qeq_bool n 0) eqn:E2; try reflexivity.
+    - apply Qeq_bool_iff in E1. apply Qmult_integral in E1. destruct E1 as [E1|E1]; [contradiction|].
+      apply Qeq_bool_iff in E1. congruence.
+    - apply Qeq_bool_iff in E2. assert (E : k * n == 0) by (rewrite E2; ring). apply Qeq_bool_iff in E. congruence.
+  Qed.
+
+  Lemma scaled_ratio : forall (c c' : xy) (n n' : Q),
+    fst c' == k * fst c -> snd c' == k * snd c -> n' == k * n ->
+    oxy_eq (if Qeq_bool n' 0 then None else Some (xy_scale c' (1 / n')))
+           (if Qeq_bool n 0 then None else Some (xy_scale c (1 / n))).
+  Proof.
+    intros c c' n n' H1 H2 H3. rewrite (Qeq_bool_eq n' (k * n) 0 0 H3 (Qeq_refl 0)), Qeq_bool_scale.
+    destruct (Qeq_bool n 0) eqn:E; [exact I|]. cbn [oxy_eq].
+    assert (Hn : ~ n == 0) by (intro K; apply Qeq_bool_iff in K; congruence).
+    unfold xy_eq, xy_scale. cbn [fst snd]. rewrite H1, H2, H3. split; field; split; assumption.
+  Qed.
+
+  Lemma line_sqk : forall l,
+    oxy_eq (line_centroid sqk l) (line_centroid sq l) /\ line_length sqk l == k * line_length sq l.
+  Proof.
+    intros l. split; [|apply length_xy_sqk].
+    unfold line_centroid, sum_centroid_length. destruct (sumcl_xy_sqk (line_xys l)) as [H1 [H2 H3]].
+    destruct (sumcl_xy sqk (line_xys l)) as [c' n'], (sumcl_xy sq (line_xys l)) as [c n]. cbn [fst snd] in *.
+    apply scaled_ratio; assumption.
+  Qed.
+
+  Lemma mline_centroid_sqk : forall ls, oxy_eq (mline_centroid sqk ls) (mline_centroid sq ls).
+  Proof.
+    intros ls. unfold mline_centroid.
+    set (F := fun (s : Q -> Q) (acc : xy * Q) (l : lineT Q) =>
+                let '(c, n) := sum_centroid_length s l in (xy_add (fst acc) c, snd acc + n)).
+    assert (G : forall l a a', fst (fst a') == k * fst (fst a) -> snd (fst a') == k * snd (fst a) -> snd a' == k * snd a ->
+               fst (fst (fold_left (F sqk) l a')) == k * fst (fst (fold_left (F sq) l a)) /\
+               snd (fst (fold_left (F sqk) l a')) == k * snd (fst (fold_left (F sq) l a)) /\
+               snd (fold_left (F sqk) l a') == k * snd (fold_left (F sq) l a)).
+    { induction l as [|x l IH]; intros a a' K1 K2 K3; cbn [fold_left]; [repeat split; assumption|].
+      apply IH; unfold F, sum_centroid_length; destruct (sumcl_xy_sqk (line_xys x)) as [S1 [S2 S3]];
+        destruct (sumcl_xy sqk (line_xys x)) as [c' n'], (sumcl_xy sq (line_xys x)) as [c n];
+        cbn [fst snd xy_add] in *; unfold xy in *.
+      - rewrite K1, S1. ring.
+      - rewrite K2, S2. ring.
+      - rewrite K3, S3. ring. }
+    destruct (G ls (xy0, 0) (xy0, 0)) as [H1 [H2 H3]]; [cbn; ring|cbn; ring|cbn; ring|].
+    fold (F sqk) (F sq).
+    destruct (fold_left (F sqk) ls (xy0, 0)) as [c' n'], (fold_left (F sq) ls (xy0, 0)) as [c n]. cbn [fst snd] in *.
+    apply scaled_ratio; assumption.
+  Qed.
+
+  Lemma leaf_centroid_sqk : forall g, oxy_eq (leaf_centroid sqk g) (leaf_centroid sq g).
+  Proof.
+    intros g. destruct g; cbn [leaf_centroid]; try apply oxy_eq_refl.
+    - apply line_sqk. - apply mline_centroid_sqk.
+  Qed.
+
+  Lemma lw_sqk : forall l,
+    lw sqk l == k * lw sq l /\ lcx sqk l == k * lcx sq l /\ lcy sqk l == k * lcy sq l.
+  Proof.
+    intros l. destruct (line_sqk l) as [H1 H2]. unfold lw, lcx, lcy.
+    destruct (line_centroid sqk l) as [c'|], (line_centroid sq l) as [c|]; cbn in H1; try tauto.
+    - destruct H1 as [K1 K2]. rewrite K1, K2, H2. repeat split; ring.
+    - repeat split; ring.
+  Qed.
+
+  Lemma gl_sqk : forall g,
+    glw sqk g == k * glw sq g /\ glx sqk g == k * glx sq g /\ gly sqk g == k * gly sq g.
+  Proof.
+    intros g. destruct g; cbn [glw glx gly]; try (repeat split; ring).
+    - apply lw_sqk.
+    - repeat split.
+      + rewrite (qsum_map_ext_all _ (lw sqk) (fun l => lw sq l * k)) by (intros l; destruct (lw_sqk l) as [K _]; rewrite K; ring).
+        rewrite qsum_map_scale. ring.
+      + rewrite (qsum_map_ext_all _ (lcx sqk) (fun l => lcx sq l * k)) by (intros l; destruct (lw_sqk l) as [_ [K _]]; rewrite K; ring).
+        rewrite qsum_map_scale. ring.
+      + rewrite (qsum_map_ext_all _ (lcy sqk) (fun l => lcy sq l * k)) by (intros l; destruct (lw_sqk l) as [_ [_ K]]; rewrite K; ring).
+        rewrite qsum_map_scale. ring.
+  Qed.
+
+  Lemma geom_length_sqk : forall g, geom_length sqk g == k * geom_length sq g.
+  Proof.
+    induction g using geomT_ind'.
+    - cbn [geom_length]. destruct (is_empty _); ring.
+    - rewrite !geom_length_line. apply length_xy_sqk.
+    - cbn [geom_length]. destruct (is_empty _); ring.
+    - cbn [geom_length]. destruct (is_empty _); ring.
+    - rewrite !geom_length_mline.
+      rewrite (qsum_map_ext_all _ (line_length sqk) (fun l => line_length sq l * k)) by (intros l; unfold line_length; rewrite length_xy_sqk; ring).
+      rewrite qsum_map_scale. ring.
+    - cbn [geom_length]. destruct (is_empty _); ring.
+    - rewrite !geom_length_coll.
+      rewrite (qsum_map_ext _ (geom_length sqk) (fun x => geom_length sq x * k)).
+      + rewrite qsum_map_scale. ring.
+      + eapply Forall_impl; [|exact H]. intros a Ha. rewrite Ha. ring.
+  Qed.
+
+  Lemma geom_centroid_sqk : forall g, oxy_eq (geom_centroid sqk g) (geom_centroid sq g).
+  Proof.
+    intros g. destruct g; try apply (leaf_centroid_sqk (GPoint p)); try apply (leaf_centroid_sqk (GLine l));
+      try apply (leaf_centroid_sqk (GPoly p)); try apply (leaf_centroid_sqk (GMPoint ct ps));
+      try apply (leaf_centroid_sqk (GMLine ct ls)); try apply (leaf_centroid_sqk (GMPoly ct ps)).
+    cbn [geom_centroid]. unfold coll_centroid. destruct (forallb (@is_empty Q) gs); [exact I|].
+    set (lv := flat_map leaves gs).
+    destruct (hdim (GColl ct gs)) as [|[|n]]; cbn [oxy_eq].
+    - apply xy_eq_refl.
+    - destruct (coll_linear_spec sqk lv) as [H1 H2], (coll_linear_spec sq lv) as [G1 G2].
+      unfold xy_eq. rewrite H1, H2, G1, G2.
+      rewrite (qsum_map_ext_all _ (glw sqk) (fun g => glw sq g * k)) by (intros g; destruct (gl_sqk g) as [K _]; rewrite K; ring).
+      rewrite (qsum_map_ext_all _ (glx sqk) (fun g => glx sq g * k)) by (intros g; destruct (gl_sqk g) as [_ [K _]]; rewrite K; ring).
+      rewrite (qsum_map_ext_all _ (gly sqk) (fun g => gly sq g * k)) by (intros g; destruct (gl_sqk g) as [_ [_ K]]; rewrite K; ring).
+      rewrite !qsum_map_scale.
+      set (L := qsum (map (glw sq) lv)). destruct (Qeq_dec L 0) as [E|E].
+      + rewrite E. unfold Qdiv. rewrite Qmult_0_l. change (/ 0) with 0. split; ring.
+      + split; field; split; assumption.
+    - destruct (coll_areal_spec sqk lv) as [H1 H2], (coll_areal_spec sq lv) as [G1 G2].
+      unfold xy_eq. rewrite H1, H2, G1, G2.
+      split; apply Qdiv_comp; try reflexivity; apply qsum_map_ext_all; intros g;
+        assert (K := leaf_centroid_sqk g);
+        destruct (leaf_centroid sqk g), (leaf_centroid sq g); cbn in K; try tauto; cbn [ocx ocy];
+        try reflexivity; destruct K as [K1 K2]; rewrite ?K1, ?K2; reflexivity.
+  Qed.
+End SqScale.
